@@ -80,11 +80,12 @@ def phys(seg, off):
 class L3:
     """concrete re-statement of the production contracts of kani_l3 for one input"""
 
-    def __init__(self, rp, inputs, tool):
+    def __init__(self, rp, inputs, tool, fill=0):
         self.rp, self.inp, self.tool = rp, inputs, tool
         self.regs = {r: u16(g(inputs, "in_" + r)) for r in REGS}
         self.m = g(inputs, "in_m") % MB
         self.mem = {}            # initial pokes
+        self.fill = fill         # value of every memory cell the counterexample does not name (free in the verifier's model)
         self.labels = []
         self.ops = rp.get("ops", [])
         self.lab = rp.get("lab", [])
@@ -160,7 +161,7 @@ class L3:
         head = " ".join(str(self.regs[r]) for r in REGS)
         pokes = " ".join(f"{a} {v}" for a, v in self.mem.items())
         labs = " ".join(f"{n} {m}" for n, m in self.labels)
-        req = f"run {head} {len(self.mem)} {pokes} {len(self.labels)} {labs} | {line} ; " + " ".join(str(c) for c in cells)
+        req = f"runf {self.fill} {head} {len(self.mem)} {pokes} {len(self.labels)} {labs} | {line} ; " + " ".join(str(c) for c in cells)
         return ask(self.tool, [req])[0], req
 
     def go(self):
@@ -181,7 +182,7 @@ class L3:
                 mism.append(f"{r}: observed {obs[r]:#x} expected {exp[r]:#x}")
         oc = dict((a, v) for a, v in obs["cells"])
         for a in cells:
-            want = expmem.get(a, self.mem.get(a, 0))
+            want = expmem.get(a, self.mem.get(a, self.fill))
             if oc.get(a) != want:
                 mism.append(f"mem[{a:#x}]: observed {oc.get(a)} expected {want}")
         if outcome is not None and obs["outcome"] != outcome:
@@ -418,7 +419,7 @@ class L3:
         down = r0["flag"] & 0x400
         stp = lambda x: u16(x - size) if down else u16(x + size)
         src, dst = phys(r0["ds"], r0["si"]), phys(r0["es"], r0["di"])
-        rd = lambda a: self.mem.get(a, 0) | ((self.mem.get((a + 1) % MB, 0) << 8) if size == 2 else 0)
+        rd = lambda a: self.mem.get(a, self.fill) | ((self.mem.get((a + 1) % MB, self.fill) << 8) if size == 2 else 0)
         exp, em = dict(r0), {}
         if mn == "movs":
             v = rd(src)
@@ -495,7 +496,20 @@ def native(rp: dict, inputs: dict, tool: str):
     if k == "l1_nullary":
         return ask(tool, [f"l1n {rp['fn']} {fl} {g(inputs, 'in_ax')} {g(inputs, 'in_dx')}"])[0]
     if k == "l3":
-        return L3(rp, inputs, tool).go()
+        # the verifier's counterexample leaves every memory cell it does not name arbitrary: try the all-zero memory first, then
+        # two other backgrounds (a read at a WRONG address shows only when that cell differs from the right one)
+        first = None
+        for fill in (0, 0xA5, 0x5A):
+            r = L3(rp, inputs, tool, fill).go()
+            if r is None:
+                return first
+            if fill:
+                r["memory_background"] = f"every memory cell the counterexample does not name holds {fill:#x} (free in the verifier's model)"
+            if first is None:
+                first = r
+            if r.get("confirmed"):
+                return r
+        return first
     return None
 
 
